@@ -468,9 +468,8 @@ def _hookable(ctx, pm, hf):
         F.stubs.update(saved)
 
 
-def _dispatch_and_publication(ctx):
-    """R6 (route selection of beartype_object) and R8 (the configuration a module is transformed
-    with is the configuration its injected code finds at run time)."""
+def _route_selection(ctx, RULE):
+    """Route selection of beartype_object, interpreted for {warning class set / unset} × {cls_stack absent / None / non-empty}."""
     from sa.gen import AConf
     from . import _gen
     repo = ctx.repo
@@ -492,14 +491,21 @@ def _dispatch_and_publication(ctx):
                 except (_Abort, _Raise) as ex:
                     ctx.require(False, f'cannot interpret beartype_object: {ex}')
                 want = ['fatal'] if wcls is None else ['nonfatal']
-                ctx.ob('C05.R6', f'beartype_object:route:warning-class-set={wcls is not None}:cls_stack={stack}', cm.where(fn.node),
+                ctx.ob(RULE, f'beartype_object:route:warning-class-set={wcls is not None}:cls_stack={stack}', cm.where(fn.node),
                        'a decoration failure is reported as a warning exactly when the configuration names a warning '
                        'class — for module-level objects and for members of a class being decorated alike', route == want,
-                       f'route taken: {route}; with the hook\'s configuration a failing method aborts the decoration of '
+                       f'route taken: {route}; with such a configuration a failing method aborts the decoration of '
                        f'the remaining members of its class' if wcls is not None else f'route taken: {route}')
     finally:
         F.stubs.clear()
         F.stubs.update(saved)
+
+
+def _dispatch_and_publication(ctx):
+    """R6 (route selection of beartype_object) and R8 (the configuration a module is transformed
+    with is the configuration its injected code finds at run time)."""
+    repo = ctx.repo
+    _route_selection(ctx, 'C05.R6')
 
     ctx.rule('C05.R8', 'one configuration per transformed module: BeartypeSourceFileLoader.get_code obtains conf from '
              'get_package_conf_or_none(fullname) and, before delegating to the standard loader, unconditionally '
